@@ -46,9 +46,22 @@ def parse(repo):
     if body and isinstance(body[0], ast.Expr) and isinstance(body[0].value, ast.Constant) and isinstance(body[0].value.value, str):
         body = body[1:]
     kinds = [type(s).__name__ for s in body]
-    if kinds != ["Assign", "If", "Assign", "Assert", "Assign", "Assert"]:
+    restores = False
+    if kinds == ["Assign", "If", "Assign", "Assert", "Assign", "Assert"]:
+        a0, if_, a1, as0, a2, as1 = body
+    elif kinds == ["Assign", "If", "Assign", "Assert", "Assign", "Assign", "Assert", "For"]:
+        # repaired form: the declared types / shapes of the graph outputs are recorded before the passes run and given back to
+        # outputs that come out untyped under the same name (nothing else may happen in these statements)
+        a0, if_, a1, as0, rec, a2, as1, loop_ = body
+        if ast.unparse(rec) != "declared_outputs = [(v.name, v.type, v.shape) for v in model.graph.outputs]":
+            raise Unrecognised("unexpected statement before the passes run: " + ast.unparse(rec)[:80])
+        want = ("for value, (name, type_, shape) in zip(model.graph.outputs, declared_outputs):\n    if value.name == name:\n"
+                "        if value.type is None:\n            value.type = type_\n        if value.shape is None:\n            value.shape = shape")
+        if ast.unparse(loop_) != want:
+            raise Unrecognised("the statements after the passes are not the restoration of declared output types: " + ast.unparse(loop_)[:80])
+        restores = True
+    else:
         raise Unrecognised(f"statements of optimize_ir: {kinds}")
-    a0, if_, a1, as0, a2, as1 = body
     if not (len(a0.targets) == 1 and isinstance(a0.targets[0], ast.Name) and a0.targets[0].id == "passes" and isinstance(a0.value, ast.List)):
         raise Unrecognised("first statement is not `passes = [...]`")
     elts = a0.value.elts
@@ -82,7 +95,8 @@ def parse(repo):
     for need in (mk["steps"], mk["early_stop"], if_.test.id):
         if need not in params:
             raise Unrecognised(f"{need} is not a parameter of optimize_ir")
-    return {"prefix_guard": if_.test.id, "prefix": prefix, "loop": loop, "steps": mk["steps"], "early_stop": mk["early_stop"], "post": post}
+    return {"prefix_guard": if_.test.id, "prefix": prefix, "loop": loop, "steps": mk["steps"], "early_stop": mk["early_stop"], "post": post,
+            "restores_output_types": restores}
 
 
 def _plist(l):
@@ -105,6 +119,8 @@ def regenerate(ctx):
             f"Definition src_loop : list pass_desc := {_plist(info['loop'])}.\n"
             f"Definition src_steps : string := {cstr(info['steps'])}.\n"
             f"Definition src_early_stop : string := {cstr(info['early_stop'])}.\n"
-            f"Definition src_post : list pass_desc := {_plist(info['post'])}.\n")
+            f"Definition src_post : list pass_desc := {_plist(info['post'])}.\n"
+            "(* the declared types of the graph outputs are given back to outputs that come out of the passes untyped *)\n"
+            f"Definition src_restores_output_types : bool := {'true' if info['restores_output_types'] else 'false'}.\n")
     ctx.gen("OptPipeline", text)
     return info
